@@ -13,7 +13,11 @@ import more_itertools
 
 from cirbo.core.boolean_function import RawTruthTableModel
 from cirbo.core.circuit import Circuit
-from cirbo.core.circuit.exceptions import CircuitValidationError
+from cirbo.core.circuit.exceptions import (
+    CircuitValidationError,
+    DeleteBlockError,
+    ReplaceSubcircuitError,
+)
 from cirbo.core.circuit.gate import NOT, Label
 from cirbo.core.circuit.operators import GateState, Undefined
 from cirbo.core.circuit.validation import check_circuit_has_no_cycles
@@ -624,6 +628,12 @@ def minimize_subcircuits(
             check_circuit_has_no_cycles(new_circuit)
         except CircuitValidationError:
             logger.debug("Circuit becomes cyclic")
+            continue
+        except (DeleteBlockError, ReplaceSubcircuitError):
+            # A gate that would be removed is still needed outside of the subcircuit
+            # (e.g. an output that is equal to another output has no counterpart in
+            # the new subcircuit). `circuit` has not been touched.
+            logger.debug("Subcircuit can not be replaced")
             continue
 
         circuit = new_circuit
